@@ -49,6 +49,58 @@ TRANSPORT_FAULTS = [["transport", k] for k in ("timeout", "ssl", "protocol", "ot
 ALL_FAULTS = [f + [p] for f in STATUS_FAULTS + TRANSPORT_FAULTS for p in (False, True)]
 
 
+_VARIANT: Dict[str, Any] = {}
+
+
+def detect_variant() -> Tuple[Optional[str], List[str]]:
+    """T-gen for the one place where the model has two transcriptions: does `discard`'s bookkeeping use `del d[k]` (pinned tree,
+    Model `discardG false`) or `d.pop(k, None)` (fixes/C16-discard-bookkeeping.patch, `discardG true`)?  Read from the source by
+    `ast`, never by importing."""
+    import ast
+    import os
+    path = os.path.join(C.REPO, "sdk", "basyx", "aas", "backend", "couchdb.py")
+    tree = ast.parse(open(path, encoding="utf-8").read())
+
+    def kind(fn, is_target) -> Optional[str]:
+        found = set()
+        for n in ast.walk(fn):
+            if isinstance(n, ast.Delete):
+                for t in n.targets:
+                    if isinstance(t, ast.Subscript) and is_target(t.value):
+                        found.add("del")
+            if isinstance(n, ast.Call) and isinstance(n.func, ast.Attribute) and n.func.attr == "pop" and is_target(n.func.value) \
+                    and len(n.args) == 2:
+                found.add("pop")
+        return found.pop() if len(found) == 1 else None
+
+    rev_fn = next((n for n in tree.body if isinstance(n, ast.FunctionDef) and n.name == "delete_couchdb_revision"), None)
+    cls = next((n for n in tree.body if isinstance(n, ast.ClassDef) and n.name == "CouchDBObjectStore"), None)
+    dis_fn = next((n for n in (cls.body if cls else []) if isinstance(n, ast.FunctionDef) and n.name == "discard"), None)
+    if rev_fn is None or dis_fn is None:
+        return None, ["delete_couchdb_revision / CouchDBObjectStore.discard not found in couchdb.py"]
+    a = kind(rev_fn, lambda v: isinstance(v, ast.Name) and v.id == "_revision_store")
+    b = kind(dis_fn, lambda v: isinstance(v, ast.Attribute) and v.attr == "_object_cache")
+    if a == "del" and b == "del":
+        return "pinned", []
+    if a == "pop" and b == "pop":
+        return "fixed", []
+    return None, [f"discard bookkeeping has an unrecognised shape (revision store: {a}, object cache: {b}); the model knows "
+                  "`del d[k]` in both places (pinned) or `d.pop(k, None)` in both (patched)"]
+
+
+def variant() -> str:
+    if "v" not in _VARIANT:
+        v, broken = detect_variant()
+        _VARIANT["v"] = v or "fixed"
+        _VARIANT["broken"] = broken
+    return _VARIANT["v"]
+
+
+def translate(ctx: C.Ctx) -> List[str]:
+    variant()
+    return list(_VARIANT["broken"])
+
+
 def idb(s: str) -> List[int]:
     return list(s.encode("utf-8"))
 
@@ -470,6 +522,7 @@ class Tape:
         hi = len(self.ops)
         self.ops.append(json.dumps(ops))
         self.add(["reset"], ["reset"], (hi, -1))
+        self.add(["variant", variant()], ["unit"], (-3, 0))
         for oi, (op, r) in enumerate(zip(ops, res)):
             self.add(model_line(op), r, (hi, oi))
         return hi
@@ -636,7 +689,7 @@ def correspond(ctx: C.Ctx, cov: C.Coverage) -> List[C.Disagreement]:
     finally:
         impl.close()
     dis += tape.run()
-    cov.extra.update({"exhaustive_histories": n_ex, "fault_grid_histories": n_grid, "random_histories": total - n_ex - n_grid,
+    cov.extra.update({"discard_variant_extracted_from_source": variant(), "exhaustive_histories": n_ex, "fault_grid_histories": n_grid, "random_histories": total - n_ex - n_grid,
                       "loopback_histories": n_lb, "classification_cases": len(ct), "quote_cases": len(qc),
                       "neutral_zones": NEUTRAL, "workers": n})
     cov.exhaustive = True
